@@ -235,6 +235,9 @@ func (r *Runner) Prop(p *PropSpec) func(*rapid.T) {
 				r.mu.Unlock()
 			}()
 		}
+		RejState.mu.Lock()
+		RejState.pending = false
+		RejState.mu.Unlock()
 		r.rec.Emit("inv.begin", F{"inv": in.id})
 		r.mu.Lock()
 		ff := r.firstFail
@@ -248,7 +251,11 @@ func (r *Runner) Prop(p *PropSpec) func(*rapid.T) {
 			if done {
 				how = "ret"
 			}
-			r.rec.Emit("inv.end", F{"inv": in.id, "how": how, "last": in.last})
+			RejState.mu.Lock()
+			rp, rc := RejState.pending, RejState.coins
+			RejState.pending = false
+			RejState.mu.Unlock()
+			r.rec.Emit("inv.end", F{"inv": in.id, "how": how, "last": in.last, "rejpend": rp, "rejcoins": rc})
 			r.mu.Lock()
 			r.lastCtxs = *in.ctxs
 			r.mu.Unlock()
